@@ -9,7 +9,7 @@
    Paths are component lists here; the object layer joins them with '/' (to_chg). *)
 From Coq Require Import List NArith ZArith Bool Arith Permutation.
 From GoGit Require Import Base.Out Gen.C44 Model.DiffTree Spec.MapDiff
-  Proofs.C44_order Proofs.C44_diff Proofs.C44_sort Proofs.C44_spec Proofs.C44_rename.
+  Proofs.C44_order Proofs.C44_diff Proofs.C44_sort Proofs.C44_spec Proofs.C44_rename Proofs.C44_nodup Proofs.C44_paths.
 Import ListNotations.
 
 (* For all trees whose directories have pairwise distinct names: the walk terminates within its fuel
@@ -40,6 +40,22 @@ Theorem C44_change_meaning : forall a b,
       end.
 Proof. exact difftree_spec. Qed.
 Print Assumptions C44_change_meaning.
+
+(* no change is reported twice *)
+Theorem C44_nodup : forall a b cs,
+  tree_ok a = true -> tree_ok b = true -> difftree a b = Some cs -> NoDup cs.
+Proof. exact difftree_nodup. Qed.
+Print Assumptions C44_nodup.
+
+(* the object layer prints a path as its components joined with '/': when every name is non-empty and
+   free of '/' (boolean guard names_ok — true of every tree go-git decodes or git writes), distinct
+   changes stay distinct after joining, so the statements above carry over to Change{From,To} values *)
+Theorem C44_object_layer : forall a b cs,
+  tree_ok a = true -> tree_ok b = true -> names_ok a = true -> names_ok b = true ->
+  difftree a b = Some cs ->
+  NoDup (map to_chg cs) /\ forall c c', In c cs -> In c' cs -> to_chg c = to_chg c' -> c = c'.
+Proof. exact difftree_object_layer. Qed.
+Print Assumptions C44_object_layer.
 
 (* Rename detection, for EVERY score oracle, rename limit and mode: the From sides and the To sides of
    the result are permutations of those of the input (nothing lost, invented or used twice); every
@@ -86,8 +102,8 @@ Definition ex_a : tree :=
 Definition ex_b : tree :=
   [ ([97], Dir [ ([113], File (33188, [5])) ]); ([97; 46; 98], File (33188, [2]));
     ([100], Dir [ ([121], File (33188, [4])); ([122], File (40960, [6])) ]) ].
-Example C44_guard_holds : tree_ok ex_a = true /\ tree_ok ex_b = true.
-Proof. vm_compute. split; reflexivity. Qed.
+Example C44_guard_holds : tree_ok ex_a = true /\ tree_ok ex_b = true /\ names_ok ex_a = true /\ names_ok ex_b = true.
+Proof. vm_compute. repeat split; reflexivity. Qed.
 Example C44_example_diff :
   difftree ex_a ex_b =
   Some [ MDel [[97]] (33188, [1]); MIns [[97]; [113]] (33188, [5]);
